@@ -100,6 +100,30 @@ let () =
        | Crash -> print_endline "PANIC"
        | OutOfFuel -> print_endline "FUEL");
       loop ()
+    | Some ["I"; s; start] ->
+      (* NodeIterator hashes the live trie first (Trie.Hash replaces the root by its cached copy) *)
+      let (st', _) = step keccak !st (OpHash (nat s)) in
+      st := st';
+      let r = match iter_from (nodedb !st) (slot !st (nat s)) (nlist_of_hex start) with
+        | Ok l -> "i:" ^ String.concat "," (List.map (fun (k, v) -> hx k ^ "=" ^ hx v) l)
+        | Missing -> "missing" | Crash -> "PANIC" | OutOfFuel -> "FUEL" in
+      print_endline (r ^ " " ^ str_obs (observe keccak !st (nat s) !probes)); loop ()
+    | Some ("Q" :: s :: first :: last :: mode :: rest) ->
+      let rec takes n l acc = if n = 0 then (List.rev acc, l) else
+          match l with x :: t -> takes (n-1) t (x :: acc) | [] -> failwith "bad Q" in
+      let counted l = match l with c :: t -> takes (int_of_string c) t [] | [] -> failwith "bad Q" in
+      let (ks, rest) = counted rest in
+      let (vs, rest) = counted rest in
+      let (bs, _) = counted rest in
+      let root = fst (trie_hash keccak (slot !st (nat s))) in
+      let proof = if mode = "n" then None else Some (List.map nlist_of_hex bs) in
+      (match verify_range keccak root (nlist_of_hex first) (nlist_of_hex last)
+               (List.map nlist_of_hex ks) (List.map nlist_of_hex vs) proof with
+       | RAccept true -> print_endline "q:ok:1"
+       | RAccept false -> print_endline "q:ok:0"
+       | RError -> print_endline "q:e"
+       | RCrash -> print_endline "PANIC");
+      loop ()
     | Some ("X" :: k :: blobs) ->
       let blobs = List.map nlist_of_hex blobs in
       let root = keccak (List.hd blobs) in
